@@ -234,6 +234,19 @@ def oracle(spec, o):
                 429: "RATE_LIMIT"}.get(z, "SERVER_ERROR" if 500 <= z < 600 else "UNKNOWN")
         if o["http"] != want:
             return f"http_classifier: status {z} must map to {want}, got {o['http']}"
+    if not any(spec["attrs"].get(a, {}).get("t") in ("int", "bool", "bigint") for a in ("status", "status_code", "code")):
+        # no integer status attribute: the first int argument in 100..599 (bools are ints) is the status ("args may include status")
+        for a in spec["args"]:
+            if a["t"] == "bigint":
+                continue          # far outside 100..599
+            if a["t"] in ("int", "bool"):
+                z = int(a["v"]) if a["t"] == "int" else int(bool(a["v"]))
+                if 100 <= z <= 599:
+                    want = {401: "AUTH", 403: "PERMISSION", 400: "PERMANENT", 404: "PERMANENT", 409: "CONCURRENCY", 408: "TRANSIENT",
+                            429: "RATE_LIMIT"}.get(z, "SERVER_ERROR" if 500 <= z < 600 else "UNKNOWN")
+                    if o["http"] != want:
+                        return f"http_classifier: status {z} carried in args must map to {want}, got {o['http']}"
+                    break
     for n, v in o["optional"].items():
         if v != o["default"]:
             return f"{n}_classifier (library absent) returned {v}, default_classifier returned {o['default']}"
